@@ -280,8 +280,15 @@ def fam_tagging(ctx, k):
 
 
 def _round8_stable(st):
+    """Joins merge vertices that agree to 8 decimals relative to the extent of the joined mesh: the exact-union
+    oracle applies when distinct vertices are further apart than that (1e-6 of the extent, with margin)."""
     p = np.asarray(st.mesh.p)
-    return bool(np.array_equal(p.round(8), p))
+    ext = float(np.ptp(p, axis=1).max()) if p.size else 0.0
+    if ext <= 0:
+        return False
+    exact = np.unique(p, axis=1).shape[1]
+    coarse = np.unique(np.round(p / (2.0 * ext), 6), axis=1).shape[1]
+    return exact == coarse
 
 
 def chain_step(ctx, rng, st):
@@ -329,7 +336,7 @@ def chain_step(ctx, rng, st):
         return O.op_extrude(ctx, rng, st, line_of(z)), op
     if op == "add-shifted-copy":
         if not _round8_stable(st):
-            ctx.drop("add-in-sequence-skipped(coordinates-finer-than-8-decimals)")
+            ctx.drop("add-in-sequence-skipped(distinct-vertices-closer-than-1e-6-of-extent)")
             return st, "skipped-add"
         p = np.asarray(st.mesh.p)
         d = int(rng.integers(st.dim))
@@ -337,7 +344,7 @@ def chain_step(ctx, rng, st):
         shift[d] = float(np.ceil(np.ptp(p[d]))) + float(rng.integers(0, 2))   # touching or disjoint boxes
         B = St(st.mesh.translated(tuple(shift)), st.kind, 1)
         if not _round8_stable(B):
-            ctx.drop("add-in-sequence-skipped(coordinates-finer-than-8-decimals)")
+            ctx.drop("add-in-sequence-skipped(distinct-vertices-closer-than-1e-6-of-extent)")
             return st, "skipped-add"
         return O.op_add(ctx, rng, St(attach_tags(st.mesh, {}, {}), st.kind, 1), B), op
     raise ValueError(op)
